@@ -60,6 +60,49 @@ struct Ex {
     v.TraverseStmt(const_cast<Expr *>(E));
   }
 
+  Array refsOf(const Expr *E) {
+    Array calls, refs;
+    condAtoms(E, calls, refs);
+    return refs;
+  }
+  // {text, refs, const?} of one operand
+  Object operand(const Expr *E) {
+    Object o;
+    o["text"] = exprText(Ctx, E);
+    o["refs"] = refsOf(E);
+    Expr::EvalResult ER;
+    if (auto *IL = dyn_cast_or_null<IntegerLiteral>(strip(E))) o["const"] = IL->getValue().getSExtValue();
+    else if (!E->isValueDependent() && E->getType()->isIntegralOrEnumerationType() && E->EvaluateAsInt(ER, Ctx)) o["const"] = ER.Val.getInt().getExtValue();
+    else if (auto *FL = dyn_cast<FloatingLiteral>(strip(E))) { if (FL->getValue().isZero()) o["const"] = 0; }
+    return o;
+  }
+  // structured view of a branch condition: comparison / negation / truth test
+  void condShape(const Expr *C0, Object &c) {
+    const Expr *C = strip(C0);
+    bool neg = false;
+    while (auto *UO = dyn_cast_or_null<UnaryOperator>(C)) { if (UO->getOpcode() != UO_LNot) break; neg = !neg; C = strip(UO->getSubExpr()); }
+    if (!C) return;
+    c["neg"] = neg;
+    if (auto *BO = dyn_cast<BinaryOperator>(C)) {
+      if (BO->isComparisonOp()) {
+        c["op"] = BO->getOpcodeStr().str();
+        c["l"] = operand(BO->getLHS());
+        c["r"] = operand(BO->getRHS());
+        return;
+      }
+    }
+    if (auto *OC = dyn_cast<CXXOperatorCallExpr>(C)) {
+      if ((OC->getOperator() == OO_EqualEqual || OC->getOperator() == OO_ExclaimEqual) && OC->getNumArgs() == 2) {
+        c["op"] = OC->getOperator() == OO_EqualEqual ? "==" : "!=";
+        c["l"] = operand(OC->getArg(0));
+        c["r"] = operand(OC->getArg(1));
+        return;
+      }
+    }
+    c["op"] = "truth";
+    c["l"] = operand(C);
+  }
+
   Object callEvent(const CallExpr *CE) {
     Object o;
     const FunctionDecl *F = calleeOf(CE);
@@ -108,6 +151,7 @@ struct Ex {
     if (auto *CC = dyn_cast<CXXConstructExpr>(S)) {
       o["k"] = "construct";
       o["q"] = qualName(CC->getConstructor());
+      o["sig"] = signatureOf(CC->getConstructor());
       o["line"] = lineOf(SM, CC->getBeginLoc());
       Array args;
       for (const Expr *A : CC->arguments()) args.push_back(isa<CXXDefaultArgExpr>(A) ? std::string("<default>") : exprText(Ctx, A));
@@ -137,6 +181,7 @@ struct Ex {
     if (auto *RS = dyn_cast<ReturnStmt>(S)) {
       o["k"] = "ret";
       o["text"] = RS->getRetValue() ? exprText(Ctx, RS->getRetValue()) : std::string("");
+      if (RS->getRetValue()) { Object v = operand(RS->getRetValue()); if (v.get("const")) o["const"] = *v.get("const"); o["refs"] = std::move(*v.get("refs")); }
       o["line"] = lineOf(SM, RS->getBeginLoc());
       return true;
     }
@@ -148,6 +193,15 @@ struct Ex {
         o["lhs"] = exprText(Ctx, BO->getLHS());
         o["rhs"] = exprText(Ctx, BO->getRHS());
         o["rhslit"] = isa<IntegerLiteral>(strip(BO->getRHS())) || isa<FloatingLiteral>(strip(BO->getRHS()));
+        o["rhsrefs"] = refsOf(BO->getRHS());
+        o["line"] = lineOf(SM, BO->getBeginLoc());
+        return true;
+      }
+      if (op == BO_Shl || op == BO_Shr || op == BO_Or || op == BO_And || op == BO_ShlAssign || op == BO_ShrAssign || op == BO_OrAssign || op == BO_AndAssign) {
+        o["k"] = "bin";
+        o["op"] = BO->getOpcodeStr().str();
+        o["l"] = operand(BO->getLHS());
+        o["r"] = operand(BO->getRHS());
         o["line"] = lineOf(SM, BO->getBeginLoc());
         return true;
       }
@@ -234,6 +288,7 @@ struct Ex {
           condAtoms(C, calls, refs);
           c["calls"] = std::move(calls);
           c["refs"] = std::move(refs);
+          condShape(C, c);
           b["cond"] = std::move(c);
         }
       }
